@@ -18,7 +18,12 @@ func coreOptChoices() []optChoice {
 	keyed := func(keys ...string) func() GenCfg {
 		return func() GenCfg { c := DefaultCfg(); c.SetKeys = keys; c.Keys = []string{"a", "b", "id", "k", "x"}; return c }
 	}
+	deep := func() GenCfg { return DeepCfg() }
+	deepNoNull := func() GenCfg { c := DeepCfg(); c.AllowNull = false; return c }
 	return []optChoice{
+		{OptNone, deep, "none-deep"},
+		{OptSetO, deep, "SET-deep"},
+		{OptMerge, deepNoNull, "MERGE-deep"},
 		{OptNone, def, "none"},
 		{OptNone, nasty, "none-nasty"},
 		{OptSetO, def, "SET"},
